@@ -3,6 +3,7 @@ CONSTANTS
   Coins = {"acoin", "bcoin"}
   ModContracts <- MCMods
   ExtContracts = {"x1"}
+  BonusContracts = {}
   BadContracts = {}
   Amts = {1}
   Start = 2
